@@ -326,6 +326,8 @@ type c02Case struct {
 	Regs [3]int `json:"shape"` // rd, rs1, rs2 register numbers
 	Imm  int32  `json:"imm"`
 	Decl bool   `json:"declared_registers_only,omitempty"`
+	// register sweep: one probe per (mnemonic, slot, register), see c11OperandCheck
+	Probe *c11Case `json:"register_probe,omitempty"`
 }
 
 // declared compares the declared register sets with the table.
@@ -621,11 +623,33 @@ func c02Run(c *RunCtx) {
 			}
 		}
 	}
+	// register sweep: every mnemonic x every register slot x all 32 registers,
+	// declared sets and one execution with distinct values in the named registers
+	for _, pr := range c11OperandProbes() {
+		if pr.Kind != "register-name" || strings.HasPrefix(pr.Operand, "$") {
+			continue
+		}
+		if !c.Mine(item) {
+			item++
+			continue
+		}
+		item++
+		c.Sum.Evaluations++
+		class, detail, _ := c11OperandCheck(pr)
+		if class != "ok" {
+			c.Outcome(class)
+			k := pr
+			c.Fail(pr.Mn+"/register-sweep", class, c02Case{Text: pr.Text, Mn: pr.Mn, Probe: &k}, detail)
+		} else {
+			c.Sum.Outcomes["ok"]++
+			triples[fmt.Sprintf("%s/%s=%s", pr.Mn, pr.Slot, pr.Operand)] = true
+		}
+	}
 	c.Sum.Nontrivial = int64(len(triples))
 	c.Sum.States = c.Sum.Evaluations
 	c.Sum.Transitions = c.Sum.Evaluations
 	c.Sum.Validated = c.Sum.Evaluations
-	c.Sum.Rule = fmt.Sprintf("IX: 45 mnemonics x register shapes (rd in {zero,t0}, rs1 in {zero,t0,t1}, rs2 in {zero,t0,t1,t2}) x all pairs of a %d-value boundary lattice x %d immediates x byte lattices for loads (lb all 256, lh all 65536 for base 0, lw 6^4) x 2 poison values in unread registers; non-trivial = distinct (mnemonic, register shape, operand class pair) triples, operand classes {0, small, pos, neg, min}", len(L), len(c02Imms))
+	c.Sum.Rule = fmt.Sprintf("IX: 45 mnemonics x register shapes (rd in {zero,t0}, rs1 in {zero,t0,t1}, rs2 in {zero,t0,t1,t2}) x all pairs of a %d-value boundary lattice x %d immediates x byte lattices for loads (lb all 256, lh all 65536 for base 0, lw 6^4) x 2 poison values in unread registers; plus a register sweep (every mnemonic x every register slot x all 32 registers: declared sets, accessed addresses and one execution with distinct values in the named registers); non-trivial = distinct (mnemonic, register shape, operand class pair) triples and (mnemonic, slot, register) sweep points, operand classes {0, small, pos, neg, min}", len(L), len(c02Imms))
 	c.Cap("operand pairs are exhaustive over the lattice, not over all 2^64 pairs of int32 values")
 	c.Assume("the RV32IM table in cmd/worker/c02.go (uint32 arithmetic) is the specification; div/rem by zero are excluded here and owned by C07")
 }
@@ -638,6 +662,10 @@ func init() {
 			var k c02Case
 			if err := json.Unmarshal(raw, &k); err != nil {
 				return "ok", err.Error()
+			}
+			if k.Probe != nil {
+				class, detail, _ := c11OperandCheck(*k.Probe)
+				return class, detail
 			}
 			var sp *c02Spec
 			for i := range c02Specs {
